@@ -101,6 +101,79 @@ def oracle(chk, scn, obs, stats):
                                 % (shape, obs["status"], obs["stderr"].strip()[-160:]), case)
 
 
+def library_stream(chk, rng, n, stats):
+    """Real gatherers, sorter and library templates (no plan injection): the expected tree is computed by an
+    independent evaluator written from the tag documentation (Name/Base/Ext/Upper/Lower/Count per directory,
+    literals), for 1-3 input directories with equal relative names; --sort %Name() fixes the processing order."""
+    import os
+    from cli_driver import run_cli, snapshot
+    from sandbox import Sandbox
+
+    def stem_suffix(name):
+        i = name.rfind(".")
+        if 0 < i < len(name) - 1:
+            return name[:i], name[i:]
+        return name, ""
+    TEMPLATES = [
+        ("n%Count(width=2)%Ext()", lambda nm, k: "n%02d%s" % (k, stem_suffix(nm)[1])),
+        ("%Upper{%Base()}_%Count(start=3,step=2)%Ext()", lambda nm, k: "%s_%d%s" % (stem_suffix(nm)[0].upper(), 3 + 2 * k, stem_suffix(nm)[1])),
+        ("%Lower{%Name()}.bak", lambda nm, k: nm.lower() + ".bak"),
+        ("%Count(start=10,width=4)-%Name()", lambda nm, k: "%04d-%s" % (10 + k, nm)),
+        ("%Base()%Base()%Ext()", lambda nm, k: stem_suffix(nm)[0] * 2 + stem_suffix(nm)[1]),
+        ("%Count(step=5)_%Count(start=1)%Ext()", lambda nm, k: "%d_%d%s" % (5 * k, 1 + k, stem_suffix(nm)[1])),
+    ]
+    names = ["a.txt", "b.txt", "c.dat", "Readme", "x.tar.gz", "IMG_1.jpg", "img_2.JPG", "é.txt", "a b.c", "z"]
+    for _ in range(n):
+        roots = rng.sample(["in", "in2", "d/in"], rng.randrange(1, 4))
+        spec = [("out/keep.txt", "f", "keep")]
+        cid = 0
+        for r in roots:
+            for d in ["", "sub/"][: rng.randrange(1, 3)]:
+                for nm in rng.sample(names, rng.randrange(1, 6)):
+                    cid += 1
+                    spec.append((r + "/" + d + nm, "f", "c%d" % cid))
+        tpl, fn = rng.choice(TEMPLATES)
+        recursive = rng.random() < 0.6
+        with Sandbox() as root:
+            pipe.materialise(root, spec)
+            snap0, ids = pipe.id_map(root)
+            init = pipe.canon(snap0, ids, root)
+            argv = ["-n", "-cs", "-s", "%Name()"] + (["-r"] if recursive else []) + ["--", tpl] + roots
+            res = run_cli(argv, root, root=root, snapshots=False)
+            fin = pipe.canon(snapshot(root, with_times=False), ids, root)
+        stats["library_runs"] = stats.get("library_runs", 0) + 1
+        chk.count(("library", tpl, tuple(roots), recursive, json.dumps(spec)), nontrivial=True)
+        # expected: per directory, the selected files in name order get k = 0, 1, 2, ...
+        exp = dict(init)
+        by_dir = {}
+        for p, v in init.items():
+            if v[0] != "f" or p.startswith("out/"):
+                continue
+            r = max((x for x in roots if p.startswith(x + "/")), key=len)
+            rel = p[len(r) + 1:]
+            if "/" in rel and not recursive:
+                continue
+            by_dir.setdefault(os.path.dirname(p), []).append(os.path.basename(p))
+        moves = {}
+        for d, nms in by_dir.items():
+            for k, nm in enumerate(sorted(nms)):
+                moves[d + "/" + nm] = d + "/" + fn(nm, k)
+        dsts = list(moves.values())
+        free = len(set(dsts)) == len(dsts) and not any(d in init and d not in moves for d in dsts)
+        for s_, d_ in moves.items():
+            if s_ != d_:
+                exp.pop(s_, None)
+        for s_, d_ in moves.items():
+            exp[d_] = init[s_]
+        case = {"scenario": {"mode": "name", "strategy": "stop", "answers": [], "plan": [], "tree": spec, "argv": argv}, "status": res.status,
+                "report": res.report()[:6], "stderr": res.stderr[-300:]}
+        if res.status == 0 and pipe.strip_hash(exp) != pipe.strip_hash(fin):
+            diff = sorted(p for p in set(exp) | set(fin) if pipe.strip_hash(exp).get(p) != pipe.strip_hash(fin).get(p))
+            chk.oracle_fail("status 0 but the tree is not what the template %r describes; differing paths: %r" % (tpl, diff[:6]), case)
+        elif free and res.status != 0:
+            chk.oracle_fail("all generated names of %r are free but the run exited %s: %s" % (tpl, res.status, res.stderr.strip()[-160:]), case)
+
+
 def run(chk):
     rng = chk.rng
     quick = chk.tier == "quick"
@@ -127,6 +200,7 @@ def run(chk):
         chk.count((json.dumps(pipe.slim(s), sort_keys=True, default=str),), nontrivial=len(o["calls"]) > 0)
         obss.append(o)
     excluded = pipe.check_cases(chk, scns, obss)
+    library_stream(chk, rng, 200 if quick else 8000, stats)
     for s, o in list(zip(scns, obss))[-3:]:
         chk.sample({"mode": s["mode"], "plan": [(e["dir"], e["rel"], e["r"]) for e in s["plan"]][:5], "status": o["status"], "report": o["report"][:4]})
     chk.coverage["rule"] = (
